@@ -228,11 +228,14 @@ func Run(c *evid.Case, env *qsim.Env, cfg qsim.Config, after func(cl *qsim.Clust
 	cl.StartAll()
 	track()
 	if directed {
-		if c.Rng.Intn(4) == 0 {
+		switch c.Rng.Intn(5) {
+		case 0:
 			if SplitPrepare(cl, track) {
 				res.Directed = "split-prepare"
 			}
-		} else {
+		case 1:
+			res.Directed = SplitVote(cl, track)
+		default:
 			res.Directed = LockThenBreak(cl, track)
 		}
 	}
